@@ -42,6 +42,7 @@ type c19Thread struct {
 	moved      bool   // produced an event during the current step
 	newBlocked bool   // became blocked during the current step
 	timed      bool   // released into a wait that ends by itself
+	bstate     string // runtime wait state seen when the thread was classified as blocked
 	aux        interface{}
 	// producers
 	k      int  // next row
@@ -68,6 +69,7 @@ type c19Sched struct {
 	timedPoints map[string]bool
 	adopt       func(point string) string    // name for an unknown goroutine arriving at point ("" = let it pass)
 	auxAt       func(point string) interface{} // evaluated by the arriving goroutine itself
+	watchStray  string                        // also wait for unmanaged goroutines running code of this package path
 	stuck       bool
 }
 
@@ -292,10 +294,23 @@ func (s *c19Sched) settle() {
 				busy = true
 			}
 		}
-		if !busy {
+		if !busy && s.watchStray == "" {
 			return
 		}
 		snap := c19GoroutineStates()
+		if !busy {
+			// nothing managed is running: a goroutine not yet known to the scheduler (a sink worker
+			// that has just been handed a task) may still be on its way to its first yield point
+			if s.drain() == 0 && !s.strayRunning(snap) {
+				return
+			}
+			if time.Now().After(deadline) {
+				s.stuck = true
+				return
+			}
+			runtime.Gosched()
+			continue
+		}
 		// the snapshot is trusted only if nothing parked after it was taken: then every managed
 		// goroutine was parked, finished or in the state the snapshot shows at one instant
 		quiet := s.drain() == 0
@@ -310,6 +325,7 @@ func (s *c19Sched) settle() {
 				continue
 			}
 			if c19BlockedState(g, t.timed) {
+				t.bstate = g.state
 				if t.status == c19StRunning {
 					t.status, t.newBlocked = c19StBlocked, true
 					if c19SchedDebug {
@@ -322,6 +338,9 @@ func (s *c19Sched) settle() {
 				}
 				quiet = false
 			}
+		}
+		if quiet && s.watchStray != "" && s.strayRunning(snap) {
+			quiet = false
 		}
 		if quiet {
 			return
@@ -336,6 +355,28 @@ func (s *c19Sched) settle() {
 			time.Sleep(20 * time.Microsecond)
 		}
 	}
+}
+
+// strayRunning reports an unmanaged goroutine that is executing (not blocked in) the watched package.
+func (s *c19Sched) strayRunning(snap map[int64]c19GState) bool {
+	s.mu.Lock()
+	defer s.mu.Unlock()
+	for gid, g := range snap {
+		if _, managed := s.byGid[gid]; managed {
+			continue
+		}
+		if !strings.Contains(g.stack, s.watchStray) {
+			continue
+		}
+		switch g.state {
+		case "running", "runnable", "syscall":
+			return true
+		}
+		if g.inYield {
+			return true // about to be adopted
+		}
+	}
+	return false
 }
 
 // release lets a parked thread run; the caller then settles.
